@@ -38,19 +38,49 @@ def pba():
 
 
 def build(o):
+    """the real object.  Optional last element = representation of the same value (theme "operand representation"):
+    P: "int" (integer-dtype bound arrays) | "list" (Python lists);  D: "list" (parameters as a list);
+    S: "intervals" (list of Interval objects) | "vec" (one vector Interval) | "mixed" (Interval objects and [lo,hi] lists) | "tuple" """
     P = pba()
     k = o[0]
+    rep = o[3] if len(o) > 3 else None
     if k == "N":
         return int(o[1]) if o[2] == "int" else float(o[1])
     if k == "I":
         return P.I(o[1], o[2])
     if k == "P":
+        if rep == "int":
+            return pbx.Staircase()(left=np.array(o[1], dtype=np.int64), right=np.array(o[2], dtype=np.int64))
+        if rep == "list":
+            return pbx.Staircase()(left=list(o[1]), right=list(o[2]))
         return pbx.stair(o[1], o[2])
     if k == "D":
-        return P.Distribution(o[1], tuple(o[2]))
+        return P.Distribution(o[1], list(o[2]) if rep == "list" else tuple(o[2]))
     if k == "S":
+        if rep == "intervals":
+            return P.DempsterShafer([P.I(a, b) for a, b in o[1]], list(o[2]))
+        if rep == "vec":
+            return P.DempsterShafer(P.I(np.array([float(a) for a, _ in o[1]]), np.array([float(b) for _, b in o[1]])), np.array(o[2]))
+        if rep == "mixed":
+            return P.DempsterShafer([P.I(a, b) if i % 2 == 0 else [a, b] for i, (a, b) in enumerate(o[1])], list(o[2]))
+        if rep == "tuple":
+            return P.DempsterShafer(tuple(tuple(x) for x in o[1]), tuple(o[2]))
         return P.DempsterShafer([list(x) for x in o[1]], list(o[2]))
     raise ValueError(k)
+
+
+def dss_reference(o):
+    """belief / plausibility p-box of a DS structure computed WITHOUT the library (C08's specification, lean/Pun/Model/Dss.lean):
+    left[i] = generalised inverse of the cumulated mass of the lower endpoints at level p_i, right[i] of the upper endpoints"""
+    from .c08 import geninv
+    from pyuncertainnumber.pba.params import Params
+    G = [F(float(x)) for x in Params.p_values]
+    m = [F(float(x)) for x in o[2]]
+    tot = sum(m)
+    m = [x / tot for x in m]
+    l, _ = geninv([a for a, _ in o[1]], m, G)
+    r, _ = geninv([b for _, b in o[1]], m, G)
+    return [float(v) for v in l], [float(v) for v in r]
 
 
 def kind_of(o):
@@ -65,14 +95,23 @@ _BCACHE = {}
 
 
 def bounds(o):
-    """bounds of the operand converted to a p-box BY THE REAL CODE (operation.convert); float lists"""
-    key = json.dumps(o, default=str)
+    """bounds of the operand as a p-box.  Numbers / intervals / p-boxes: their declared values; a DS structure: the independent
+    reference `dss_reference` (NOT the library's conversion, which the conversion oracle compares with it); a distribution: the
+    quantile list the library's to_pbox() returns (scipy ppf values are parameters), fetched once per distinct description"""
+    key = json.dumps(o[:3], default=str)
     if key not in _BCACHE:
-        from pyuncertainnumber.pba.operation import convert
-        with warnings.catch_warnings():
-            warnings.simplefilter("ignore")
-            p = convert(build(o))
-        _BCACHE[key] = ([float(x) for x in p.left], [float(x) for x in p.right])
+        if o[0] == "S":
+            _BCACHE[key] = dss_reference(o)
+        elif o[0] in ("N", "I"):
+            _BCACHE[key] = declared_bounds(o)
+        elif o[0] == "P":
+            _BCACHE[key] = ([float(x) for x in o[1]], [float(x) for x in o[2]])
+        else:
+            from pyuncertainnumber.pba.operation import convert
+            with warnings.catch_warnings():
+                warnings.simplefilter("ignore")
+                p = convert(build(o))
+            _BCACHE[key] = ([float(x) for x in p.left], [float(x) for x in p.right])
     return _BCACHE[key]
 
 
@@ -93,9 +132,9 @@ def wire_opd(o):
 def exact_opd(o):
     """all values integers / dyadic so that + - * are exact in binary64"""
     if o[0] == "N":
-        return float(o[1]) * 8 == int(float(o[1]) * 8)
+        return abs(float(o[1])) <= 2 ** 20 and float(o[1]) * 8 == int(float(o[1]) * 8)
     if o[0] == "I":
-        return all(float(v) * 8 == int(float(v) * 8) for v in o[1:3])
+        return all(abs(float(v)) <= 2 ** 20 and float(v) * 8 == int(float(v) * 8) for v in o[1:3])
     if o[0] == "P":
         return all(float(v) == int(v) for v in o[1] + o[2])
     if o[0] == "S":
@@ -106,13 +145,13 @@ def exact_opd(o):
 
 def short(o):
     if o[0] == "P":
-        return ["P", {"n": len(o[1]), "left": [o[1][0], o[1][-1]], "right": [o[2][0], o[2][-1]], "full": [list(o[1]), list(o[2])]}]
+        return ["P", {"n": len(o[1]), "left": [o[1][0], o[1][-1]], "right": [o[2][0], o[2][-1]], "full": [list(o[1]), list(o[2])]}] + list(o[3:])
     return list(o)
 
 
 def unshort(o):
     if o[0] == "P" and isinstance(o[1], dict):
-        return ("P", o[1]["full"][0], o[1]["full"][1])
+        return ("P", o[1]["full"][0], o[1]["full"][1]) + tuple(o[2:])
     return tuple(o)
 
 
@@ -136,6 +175,9 @@ def canon(r):
     return ("ok", "other:" + type(r).__name__, [], [])
 
 
+_LAST = [None]     # the real object the last expression returned (kept alive and re-read later)
+
+
 def run_expr(dep, op, L, R, bare_default=False):
     """`L op R` inside `pba.dependency(dep)`; with `bare_default` (only for dep == 'f') outside any context manager, so the
     library's default ambient dependency is what is exercised"""
@@ -144,9 +186,12 @@ def run_expr(dep, op, L, R, bare_default=False):
         with warnings.catch_warnings():
             warnings.simplefilter("ignore")
             if bare_default and dep == "f":
-                return canon(pbx.PYOPS[op](L, R))
-            with P.dependency(dep):
-                return canon(pbx.PYOPS[op](L, R))
+                res = pbx.PYOPS[op](L, R)
+            else:
+                with P.dependency(dep):
+                    res = pbx.PYOPS[op](L, R)
+            _LAST[0] = res
+            return canon(res)
     except BaseException as e:  # noqa
         return ("err", err_kind(e))
 
@@ -155,7 +200,9 @@ def run_meth(dep, op, L, R):
     try:
         with warnings.catch_warnings():
             warnings.simplefilter("ignore")
-            return canon(getattr(L, op)(R, dependency=dep))
+            res = getattr(L, op)(R, dependency=dep)
+            _LAST[0] = res
+            return canon(res)
     except BaseException as e:  # noqa
         return ("err", err_kind(e))
 
@@ -243,6 +290,29 @@ def straddles(b):
     return min(b[0]) < 0 < max(b[1])
 
 
+def fast_ok(res, Lf, Uf, scale, mode):
+    """binary64 pre-check with half the tolerance: True = certainly inside the tolerance of the exact comparison
+    (reference values given as floats carry at most a few ulp of their own rounding); False = decide exactly"""
+    a, b = np.asarray(res[2], dtype=float), np.asarray(res[3], dtype=float)
+    Lf, Uf = np.asarray(Lf, dtype=float), np.asarray(Uf, dtype=float)
+    if a.shape != Lf.shape or b.shape != Uf.shape:
+        return False
+    tol = 2 * 16 * core.ulp(float(scale))
+    if mode == "enc":
+        return bool(np.all(a <= Lf + tol) and np.all(b >= Uf - tol))
+    return bool(np.all(np.abs(a - Lf) <= tol) and np.all(np.abs(b - Uf) <= tol))
+
+
+def ref_focal_fast(op, xb, yb):
+    l1, r1, l2, r2 = (np.asarray(v, dtype=float) for v in (xb[0], xb[1], yb[0], yb[1]))
+    if op == "div" and np.any((l2 <= 0) & (r2 >= 0)):
+        return None
+    f = {"add": np.add, "sub": np.subtract, "mul": np.multiply, "div": np.divide}[op]
+    with np.errstate(all="ignore"):
+        cs = [f(l1, l2), f(l1, r2), f(r1, l2), f(r1, r2)]
+    return np.sort(np.minimum.reduce(cs)), np.sort(np.maximum.reduce(cs))
+
+
 def cmp_bounds(res, L, U, scale, mode):
     """mode 'eq': result bounds equal the reference; 'enc': result encloses the reference. returns witness or None"""
     resL, resR = fr(res[2]), fr(res[3])
@@ -304,12 +374,18 @@ def gen_ivl(rng, sign, exact=True):
 def gen_pbox(rng, sign, exact=True):
     if exact:
         l, r = pbx.int_box200(rng, sign)
-        return ("P", [int(x) for x in l], [int(x) for x in r])
+        rep = rng.choice(["float", "float", "int", "list"])
+        return ("P", [int(x) for x in l], [int(x) for x in r]) + (() if rep == "float" else (rep,))
     l, r, _ = pbx.lib_box200(rng, sign)
     return ("P", l, r)
 
 
 def gen_dist(rng, sign):
+    o = _gen_dist(rng, sign)
+    return o + (("list",) if rng.random() < 0.25 else ())
+
+
+def _gen_dist(rng, sign):
     fam = rng.choice(["gaussian", "uniform", "gaussian", "exponential", "gamma", "beta"])
     if sign == "str":
         fam = rng.choice(["gaussian", "uniform"])
@@ -347,7 +423,8 @@ def gen_dss(rng, sign):
     elif sign == "str" and not (lo < 0 < hi):
         mid = (lo + hi) // 2
         ivs = [[a - mid - 1, b - mid + 1] for a, b in ivs]
-    return ("S", ivs, m)
+    rep = rng.choice(["pairs", "pairs", "intervals", "vec", "mixed", "tuple"])
+    return ("S", ivs, m) + (() if rep == "pairs" else (rep,))
 
 
 def gen_opd(rng, kind, sign, exact=True):
@@ -411,7 +488,7 @@ def gen_cases(ctx):
             cases.append(("expr", dep, "mul", ("N", -2, "int"), H))
             cases.append(("expr", dep, "sub", ("I", -1, 2), H))
     # explicit-dependency methods on a p-box / DS structure with an operand of any kind
-    for _ in range(ctx.scale(120, 2500)):
+    for _ in range(ctx.scale(100, 2500)):
         lk = rng.choice(["pbox", "pbox", "dss"])
         rk = rng.choice(KINDS)
         op, dep = rng.choice(OPS), rng.choice(DEPS)
@@ -421,7 +498,7 @@ def gen_cases(ctx):
         exact = rng.random() < 0.7
         cases.append(("meth", dep, op, gen_opd(rng, lk, sl, exact), gen_opd(rng, rk, sr, exact)))
     # low x low: the embedded expression under every dependency (property: constant p-box of the interval result)
-    for _ in range(ctx.scale(60, 800)):
+    for _ in range(ctx.scale(40, 800)):
         lk, rk = rng.choice(LOW), rng.choice(LOW)
         op = rng.choice(OPS)
         sl, sr = rng.choice(signs), rng.choice(signs)
@@ -431,6 +508,60 @@ def gen_cases(ctx):
         l, r = gen_opd(rng, lk, sl, exact), gen_opd(rng, rk, sr, exact)
         for dep in DEPS:
             cases.append(("spec", dep, op, l, r))
+    # ---- operands touching zero (upper or lower endpoint exactly 0): the sign routing of the Frechet product / quotient
+    Z0 = [("I", -2, 0), ("I", 0, 3), ("I", -5, 0)]
+    for T in Z0:
+        for Y in (("I", 1, 3), ("I", 0, 3), ("I", -4, -1), ("I", -1, 2)):
+            cases.append(("spec", "f", "mul", T, Y))
+            cases.append(("spec", "f", "mul", Y, T))
+        cases.append(("spec", "f", "div", T, ("I", 1, 3)))
+        for H in (Pw, Dw, Sw):
+            cases.append(("expr", "f", "mul", T, H))
+            cases.append(("expr", "f", "mul", H, T))
+        cases.append(("expr", "f", "div", T, Pw))
+    Pz = ("P", [-6] * 100 + [-2] * 100, [-3] * 100 + [0] * 100)       # a p-box whose upper end is exactly 0
+    for Y in (I12, ("I", 0, 3), Pw, Dw, ("N", 2, "int")):
+        cases.append(("expr", "f", "mul", Pz, Y))
+        cases.append(("expr", "f", "mul", Y, Pz))
+    # ---- thin but not degenerate intervals (relative width 1e-9 .. 1e-5, tiny absolute magnitudes): nothing may treat them as points
+    thin = [("I", 2000.0, 2000.01), ("I", 1e5, 1e5 + 0.5), ("I", 1e6, 1e6 + 5.0), ("I", -3000.001, -3000.0),
+            ("I", 2e-9, 8e-9), ("I", 1.0, 1.0 + 2.0 ** -20), ("I", 7.0, 7.0 + 7e-9)]
+    partners = [Pw, Dw, Sw, ("P", [-3] * 50 + [-1] * 50 + [1] * 100, [-2] * 50 + [0] * 50 + [4] * 100), ("D", "gaussian", [0.5, 1.0])]
+    k = 0
+    for T in thin:
+        for op in OPS:
+            for order in (0, 1):
+                H = partners[k % len(partners)]
+                dep = DEPS[(k // 2) % 4] if ctx.tier == "thorough" or k % 5 else "p"
+                k += 1
+                if op == "div" and order == 0 and divisor_has_zero(op, H):
+                    H = Pw
+                cases.append(("expr", dep, op, T, H) if order == 0 else ("expr", dep, op, H, T))
+        cases.append(("meth", rng.choice(DEPS), rng.choice(OPS), Pw, T))
+        cases.append(("meth", rng.choice(DEPS), rng.choice(["add", "sub", "mul"]), ("S", [[1, 5], [3, 6]], [0.25, 0.75]), T))
+        for dep in ("f", "p"):
+            cases.append(("spec", dep, rng.choice(OPS), I12, T))
+            cases.append(("spec", dep, rng.choice(["add", "sub", "mul"]), T, ("I", -1, 2)))
+    # ---- sequences: DS structures with the SAME focal elements and different masses one after the other (and again the
+    # first), in every operand position; the p-box of each must be the one of ITS masses
+    for ivs, ms in (([[1, 5], [3, 6]], ([0.5, 0.5], [0.25, 0.75], [0.75, 0.25], [0.5, 0.5])),
+                    ([[-3, 1], [-1, 2], [0, 4]], ([0.5, 0.25, 0.25], [0.25, 0.25, 0.5], [0.125, 0.75, 0.125]))):
+        for m in ms:
+            Sm = ("S", ivs, m)
+            cases.append(("conv", "p", None, Sm, None))
+            cases.append(("expr", "f", "add", Sm, ("I", 10, 12)))
+            cases.append(("expr", "p", "sub", ("I", 10, 12), Sm))
+            cases.append(("expr", "o", "mul", Sm, ("N", 3, "int")))
+            cases.append(("expr", "f", "add", Pw, Sm))
+            cases.append(("meth", "i", "add", Sm, Dw))
+    # ---- extreme constants as number operands: below machine epsilon and above 2**53
+    for cst in (1e-20, 2.0 ** -60, 1.380649e-23, -3e-18, 1e18, -2.5e17, 9007199254740993.0):
+        for H in (Pw, Dw, Sw):
+            for op in OPS:
+                dep = rng.choice(["f", "f", "p", "o"])
+                cases.append(("expr", dep, op, H, ("N", cst, "float")))
+                if rng.random() < 0.6:
+                    cases.append(("expr", dep, op, ("N", cst, "float"), H))
     # conversions
     for _ in range(ctx.scale(40, 400)):
         k = rng.choice(KINDS)
@@ -504,12 +635,18 @@ def check_result(ctx, rng, form, dep, op, l, r, impl, feat, case):
         return
     if lowl or lowr:
         # constant operand: focal-wise exact interval arithmetic
+        loose = dep == "f" and op in ("mul", "div") and (straddles(xb) or straddles(yb)) and not (lowl and lowr)
+        fastref = ref_focal_fast(op, xb, yb)
+        if fastref is not None:
+            fscale = max(1.0, float(np.max(np.abs(fastref[0]))), float(np.max(np.abs(fastref[1]))))
+            if np.isfinite(fscale) and fast_ok(impl, fastref[0], fastref[1], fscale, "enc" if loose else "eq"):
+                ctx.bump("oracle:focal-" + ("enc" if loose else "eq"))
+                return
         ref = ref_focal(op, xb, yb)
         if ref is None:
             return
         L, U = ref
         scale = scale_of(L, U)
-        loose = dep == "f" and op in ("mul", "div") and (straddles(xb) or straddles(yb)) and not (lowl and lowr)
         w = cmp_bounds(impl, L, U, scale, "enc" if loose else "eq")
         ctx.bump("oracle:focal-" + ("enc" if loose else "eq"))
         if w is not None:
@@ -680,10 +817,73 @@ def eval_chain_converted(dep, sh, o1, o2, a, b, c):
     return r, None
 
 
-def run_chains(ctx):
-    chains = gen_chains(ctx)
-    both = model_batch_par([wire_chain(ch) for ch in chains] + ["s" + wire_chain(ch) for ch in chains])
-    replies, sreplies = both[:len(chains)], both[len(chains):]
+def recheck_alive(ctx, alive, when):
+    """results handed out earlier are re-read: they must still hold the value they had when they were produced
+    (a result that shares memory with a cache / work buffer / later result changes behind the caller's back)"""
+    for obj, was, case in alive:
+        now = canon(obj)
+        ctx.bump("oracle:result-reread")
+        if now != was:
+            ctx.fail({"form": "alive", "check": "result-changed-later", "symptom": "result-changed-later", "op": case["op"], "dep": case["dep"]},
+                     {**case, "was": js(was), "now": js(now), "when": when},
+                     f"the p-box returned by an earlier expression ({case['form']} {case['op']}, {case['dep']}) changed afterwards ({when})")
+            alive.remove((obj, was, case))
+            return
+
+
+def run_entry_points(ctx):
+    """less common entry points of the same constructs: pba.<family>(...) vs Distribution(...), stacking / stochastic_mixture vs
+    DempsterShafer: used as an operand of the same mixed expression they must give the same p-box (real code on both sides)"""
+    P = pba()
+    rng = ctx.rng
+    X = [("I", 1, 2), ("P", [4] * 100 + [6] * 100, [5] * 100 + [9] * 100), ("N", 3, "int"), ("I", -1, 2)]
+    dists = [("gaussian", (8.0, 1.0), lambda: P.normal(8.0, 1.0)), ("gaussian", (0.5, 2.0), lambda: P.normal(0.5, 2.0)),
+             ("uniform", (1.0, 3.0), lambda: P.uniform(1.0, 3.0)), ("gamma", (2.0, 1.0), lambda: P.gamma(2.0, 1.0)),
+             ("beta", (2.0, 5.0), lambda: P.beta(2.0, 5.0))]
+    dsss = [([[1, 5], [3, 6]], [0.25, 0.75]), ([[-3, 1], [-1, 2], [0, 4]], [0.5, 0.25, 0.25]), ([[1, 5], [3, 6]], [0.5, 0.5])]
+    for _ in range(ctx.scale(24, 400)):
+        op, dep = rng.choice(OPS), rng.choice(DEPS)
+        x = rng.choice(X)
+        if op == "div":
+            x = rng.choice(X[:3])
+        order = rng.random() < 0.5
+        if rng.random() < 0.5:
+            fam, prm, alt = rng.choice(dists[:2] if op == "div" else dists)
+            if op == "div" and prm[0] < 1:
+                fam, prm, alt = dists[0]
+            objs = [("Distribution(tuple)", lambda: P.Distribution(fam, tuple(prm))), ("Distribution(list)", lambda: P.Distribution(fam, list(prm))),
+                    ("pba." + fam, alt), ("Distribution.to_pbox()", lambda: P.Distribution(fam, tuple(prm)).to_pbox())]
+            what = ["D", fam, list(prm)]
+        else:
+            ivs, m = rng.choice(dsss[:1] + dsss[2:] if op == "div" else dsss)
+            objs = [("DempsterShafer", lambda: P.DempsterShafer([list(t) for t in ivs], list(m))),
+                    ("stacking", lambda: P.stacking([P.I(a, b) for a, b in ivs], weights=list(m))),
+                    ("stacking(vector interval)", lambda: P.stacking(P.I(np.array([float(a) for a, _ in ivs]), np.array([float(b) for _, b in ivs])), weights=np.array(m))),
+                    ("DempsterShafer.to_pbox()", lambda: P.DempsterShafer([list(t) for t in ivs], list(m)).to_pbox())]
+            what = ["S", ivs, m]
+        res = []
+        for name, mkobj in objs:
+            try:
+                o = mkobj()
+                r = run_expr(dep, op, build(x), o) if order else run_expr(dep, op, o, build(x))
+            except BaseException as e:  # noqa
+                r = ("err", err_kind(e))
+            res.append((name, r))
+        ctx.count(("entry", op, dep, str(what), str(x), order), True, "entry-points")
+        case = {"form": "entry", "op": op, "dep": dep, "construct": what, "other": short(x), "construct_on_the_right": order,
+                "results": {n_: js(r_)[:1] for n_, r_ in res}}
+        ref = res[0][1]
+        for name, r in res[1:]:
+            if r != ref:
+                ctx.fail({"form": "entry", "op": op, "dep": dep, "check": "entry-points-differ", "symptom": "entry-points-differ", "entry": name}, case,
+                         f"{name} and {res[0][0]} used in the same expression ({op}, {dep}) give different results")
+                break
+        if ref[0] == "err" and not (op == "div" and divisor_has_zero(op, tuple(what)) and order is False):
+            ctx.fail({"form": "entry", "op": op, "dep": dep, "check": "raises", "symptom": "raises:" + ref[1]}, case, f"entry-point expression raised {ref[1]}")
+
+
+def run_chains(ctx, chains, chain_replies):
+    replies, sreplies = chain_replies
     rng = ctx.rng
     for ch, rep, srep in zip(chains, replies, sreplies):
         dep, sh, o1, o2, a, b, c = ch
@@ -747,7 +947,7 @@ def run_chains(ctx):
         if impl[1] != "P":
             ctx.fail({**feat, "check": "result-type", "symptom": "type:" + impl[1]}, case, f"history returned {impl[1]}")
             continue
-        w = cmp_bounds(impl, fr(cf[2]), fr(cf[3]), F(mag) * 4, "eq")
+        w = None if fast_ok(impl, cf[2], cf[3], mag * 4, "eq") else cmp_bounds(impl, fr(cf[2]), fr(cf[3]), F(mag) * 4, "eq")
         ctx.bump("oracle:chain-convert-first")
         if w is not None:
             ctx.fail({**feat, "check": "convert-first-" + w["why"], "symptom": "differs-from-converted"}, {**case, "witness": w},
@@ -778,8 +978,12 @@ def run(ctx: core.Check):
     ctx.lean_stage(["Pun.Lemmas.Hier", "Pun.Lemmas.HierComm", "Pun.Lemmas.HierScale", "Pun.Lemmas.HierTotal",
                     "Pun.Props.C07", "Pun.Props.C07Route", "Pun.Props.C07Chain"])
     cases = gen_cases(ctx)
-    replies = model_batch_par([wire(c) for c in cases])
+    chains = gen_chains(ctx)
+    allrep = model_batch_par([wire(c) for c in cases] + [wire_chain(ch) for ch in chains] + ["s" + wire_chain(ch) for ch in chains])
+    replies = allrep[:len(cases)]
+    chain_replies = (allrep[len(cases):len(cases) + len(chains)], allrep[len(cases) + len(chains):])
     rng = ctx.rng
+    alive, again = [], []
     for c, rep in zip(cases, replies):
         form, dep, op, l, r = c
         model = parse_model(rep)
@@ -804,6 +1008,15 @@ def run(ctx: core.Check):
         else:  # spec: every operand converted first, on the real code
             impl = run_meth(dep, op, conv_first(l), conv_first(r))
         mutated = before != (snap(L), snap(R))
+        if form in ("expr", "meth") and impl[0] == "ok" and _LAST[0] is not None:
+            alive.append((_LAST[0], impl, {"form": form, "dep": dep, "op": op, "l": short(l), "r": short(r)}))
+            _LAST[0] = None
+            if len(alive) > 64:
+                alive.pop(0)
+            if form == "expr" and len(again) < ctx.scale(40, 400) and ctx.evaluations % 17 == 0:
+                again.append((c, impl, locals().get("bare", False)))
+        if ctx.evaluations % 150 == 0:
+            recheck_alive(ctx, alive, "after %d evaluations" % ctx.evaluations)
         feat = {"form": form, "op": op, "dep": dep, "lkind": kl, "rkind": kr,
                 "sl": pbx.sign_class(*bounds(l))[:3], "sr": pbx.sign_class(*bounds(r))[:3],
                 "lw0": zero_width_end(bounds(l)), "rw0": zero_width_end(bounds(r))}
@@ -861,15 +1074,32 @@ def run(ctx: core.Check):
                 ctx.fail({**feat, "check": "convert-first-raises", "symptom": "raises:" + str(cf[1])}, case,
                          f"convert({kl}).{op}(convert({kr}), {dep}) failed: {cf[:2]}")
             else:
-                sc = scale_of(fr(cf[2]), fr(cf[3]), fr(impl[2]), fr(impl[3]))
-                w = cmp_bounds(impl, fr(cf[2]), fr(cf[3]), sc, "eq")
+                scf = max([1.0] + [abs(v) for v in cf[2] + cf[3] + impl[2] + impl[3]])
+                if fast_ok(impl, cf[2], cf[3], scf, "eq"):
+                    w = None
+                else:
+                    sc = scale_of(fr(cf[2]), fr(cf[3]), fr(impl[2]), fr(impl[3]))
+                    w = cmp_bounds(impl, fr(cf[2]), fr(cf[3]), sc, "eq")
                 if w is not None:
                     ctx.fail({**feat, "check": "convert-first-" + w["why"], "symptom": "differs-from-converted"}, {**case, "witness": w},
                              f"{kl} {op} {kr} ({form}, dependency {dep}) differs from the expression with both operands converted first: "
                              f"step {w.get('step')} {w['why']} {w.get('reported')} vs {w.get('reference')}")
                     continue
         check_result(ctx, rng, form, dep, op, l, r, impl, feat, case)
-    run_chains(ctx)
+    recheck_alive(ctx, alive, "at the end of the main stream")
+    run_chains(ctx, chains, chain_replies)
+    run_entry_points(ctx)
+    # the same expressions once more, after everything else has run: identical answers
+    for c, first, bare in again:
+        form, dep, op, l, r = c
+        second = run_expr(dep, op, build(l), build(r), bare)
+        ctx.bump("oracle:evaluated-twice")
+        if second != first:
+            ctx.fail({"form": "again", "op": op, "dep": dep, "lkind": kind_of(l), "rkind": kind_of(r), "check": "not-repeatable",
+                      "symptom": "second-evaluation-differs"}, {"form": form, "dep": dep, "op": op, "l": short(l), "r": short(r),
+                      "first": js(first), "second": js(second)},
+                     f"{kind_of(l)} {op} {kind_of(r)} under {dep}: the same expression evaluated again later gives a different answer")
+    recheck_alive(ctx, alive, "at the end of the run")
 
 
 def run_conv_case(ctx, c, model):
@@ -909,9 +1139,12 @@ def run_conv_case(ctx, c, model):
             if not np.allclose(ref, np.array(l), rtol=1e-9, atol=1e-12):
                 bad = "bounds are not the quantiles of the distribution on the probability grid"
     elif o[0] == "S":
-        lo = min(x[0] for x in o[1]); hi = max(x[1] for x in o[1])
-        if min(l) < lo or max(r) > hi or any(a > b for a, b in zip(l, r)):
-            bad = "DS structure converted outside the hull of its focal elements"
+        rl, rr = dss_reference(o)
+        dif = [i for i in range(N) if l[i] != rl[i] or r[i] != rr[i]]
+        if dif:
+            i = dif[0]
+            bad = (f"p-box of the DS structure differs from the belief / plausibility inverse of ITS masses at {len(dif)} steps, "
+                   f"first step {i}: [{l[i]}, {r[i]}] vs [{rl[i]}, {rr[i]}]")
     if bad:
         ctx.fail({**feat, "check": "embedding", "symptom": "wrong-embedding"}, case, f"conversion of {k}: {bad}")
 
